@@ -6,6 +6,7 @@ use std::io::{BufRead, Write};
 mod dispatch;
 mod misc;
 mod session;
+mod stats;
 mod util;
 
 fn main() {
@@ -62,6 +63,10 @@ fn handle(line: &str) -> String {
         "TB" => guarded(&|| misc::run_tb(&toks[1..])),
         "D" => guarded(&|| dispatch::run_d(&toks[1..])),
         "T" => guarded(&|| dispatch::run_t(&toks[1..])),
+        "ST" => guarded(&|| stats::run_st(&toks[1..])),
+        "FC" => guarded(&|| stats::run_fc(&toks[1..])),
+        "LEN" => guarded(&|| stats::run_len(false, &toks[1..])),
+        "LEN1" => guarded(&|| stats::run_len(true, &toks[1..])),
         _ => "bad-request".into(),
     }
 }
